@@ -5,7 +5,7 @@
    `rtu_frame_of`. A byte is an N below 256 (`bytes`). *)
 From Coq Require Import NArith List.
 From Rodbus Require Import Base.Outcome Base.Cursor Base.Frame Gen.RtuLengths Model.Buffer Model.Rtu Model.Crc Model.Reader Model.Format Spec.Framing
-  Gen.ParserShape Gen.WritePath Model.WritePath Proofs.WritePathProofs Proofs.BufferProofs Proofs.ReaderGeneric Proofs.CrcProofs Proofs.MbapProofs Proofs.RtuProofs Proofs.C06Proofs Proofs.ShapeProofs.
+  Gen.ParserShape Gen.WritePath Gen.ClientFatal Model.WritePath Proofs.WritePathProofs Proofs.BufferProofs Proofs.ReaderGeneric Proofs.CrcProofs Proofs.MbapProofs Proofs.RtuProofs Proofs.C06Proofs Proofs.ShapeProofs.
 Import ListNotations.
 
 (* Every frame written by format_rtu_pdu (any destination, any function byte, any body serializer
@@ -208,6 +208,25 @@ Theorem C06_write_reply_recreated_refuted : exists data evs out,
   write_reply WriteRecreatedAfterEveryCommand data data evs = (out, RDone) /\ out <> data.
 Proof. exact write_reply_recreated_refuted. Qed.
 Print Assumptions C06_write_reply_recreated_refuted.
+
+(* THE CLIENT'S REQUEST WRITE (execute_request; bounded by the request timeout since F14 - Gen/WritePath.client_write_shape,
+   regenerated): what is handed to the transport is a prefix of the one frame, the frame itself when the write completes; once
+   the timeout has elapsed the call is over (a transport that stops taking bytes cannot hold the client); and on a connection
+   the emitted bytes are complete frames followed by at most one cut frame - if a frame was cut by the timeout the session ends
+   (Io(TimedOut) is fatal, Gen/ClientFatal) and NO further frame is emitted on that connection. *)
+Theorem C06_client_write_prefix : forall data evs out r, client_request_write data evs = (out, r) ->
+  exists rest, data = out ++ rest /\ (r = CDone -> out = data).
+Proof. exact client_request_write_prefix. Qed.
+Print Assumptions C06_client_write_prefix.
+Theorem C06_client_write_bounded : forall data evs out r, client_request_write data evs = (out, r) -> In CTimeout evs -> r <> CParked.
+Proof. exact client_request_write_bounded. Qed.
+Print Assumptions C06_client_write_bounded.
+Theorem C06_client_connection_emits : forall reqs out alive, client_conn_emit ClientFatal.io_error_ends_session reqs = (out, alive) ->
+  exists k cut rest, out = concat (map fst (firstn k reqs)) ++ cut /\
+                     (cut = [] \/ fst (nth k reqs ([], [])) = cut ++ rest) /\
+                     (alive = false -> exists evs, In CTimeout evs /\ snd (nth k reqs ([], [])) = evs).
+Proof. exact client_conn_emit_shape. Qed.
+Print Assumptions C06_client_connection_emits.
 
 (* The RTU client (and any other user of one FramedReader across port reopenings that resets it
    at connection start, as ClientLoop::run does): every connection's stream is delimited and
